@@ -1101,6 +1101,16 @@ def gen_cfg(rng, **fixed):
                 p["loc"] = loc
                 used.add(loc)
         periphs.append(p)
+    if rng.random() < fixed.get("big_prob", 0.2):
+        # a long bank: one wide read-only register (no accessor: software walks the exported word addresses)
+        p = rng.choice(periphs)
+        if not any("n" in r for r in p["regs"]):
+            have = sum(nwords(cfg["csr_dw"], r["size"]) for r in p["regs"])
+            words = min(cfg["paging"] // 4 - have - rng.choice((0, 1, 7)),
+                        rng.randint(40, 140) if cfg["bus"] == "wishbone" and cfg["csr_dw"] == 32 else rng.randint(40, 70))
+            if words > 0:
+                p["regs"].insert(rng.randrange(len(p["regs"]) + 1),
+                                 {"kind": "status", "name": "big", "size": words * cfg["csr_dw"] - rng.randrange(cfg["csr_dw"])})
     cfg["periphs"] = periphs
     rams = []
     org = 0x10000000
@@ -1240,6 +1250,13 @@ def sweep_case(args):
         p.pop("mems", None)
         for r in p["regs"]:
             r.pop("n", None)
+        if rng.random() < 0.4:
+            # a bank that (nearly) fills its page: one wide register
+            have = sum(nwords(bw, r["size"]) for r in p["regs"])
+            words = paging // 4 - have - rng.choice((0, 0, 1, 5))
+            if words > 0:
+                p["regs"].insert(rng.randrange(len(p["regs"]) + 1),
+                                 {"kind": rng.choice(("status", "storage")), "name": "big", "size": words * bw - rng.randrange(bw)})
         setattr(src, p["name"], make_periph(p))
         loc[p["name"]] = page
         banks.append((page, [r["size"] for r in p["regs"]]))
